@@ -49,6 +49,23 @@ def run(ctx):
                 cases.append((op, [list(k)], []))
         groups.append({'u': u, 'opts': {'wrapper': True}, 'cases': cases, 'revisit': 1.0})
     run_plan(ctx, groups)
+    # the same maps inside functions compiled by alg.register (TapeRecorder has its own table of unary operators):
+    # round trips, dual / undual in every spelling, and the regressive product written out with Hodge duals
+    import programs as PR
+    from regstage import run_registered
+    X, Y = ('arg', 1), ('arg', 2)
+    un = lambda op, x, form='method': (op, [x], [], form)       # noqa: E731
+    one = [un('unhodge', un('hodge', X)), un('hodge', un('unhodge', X)), un('hodge', X), un('unhodge', X), un('dual', X), un('undual', X),
+           un('undual', un('dual', X)), un('dual', un('undual', X)), un('unhodge', X, 'kind'), un('hodge', X, 'kind'), un('undual', X, 'kind'), un('dual', X, 'kind')]
+    two = [un('unhodge', ('op', [un('hodge', X), un('hodge', Y)], [], 'infix')), ('rp', [X, Y], [], 'infix'), ('rp', [X, Y], [], 'method')]
+    plan = []
+    for u, d in ((ucfg(sig=[1, 1]), 2), (ucfg(sig=[0, 1]), 2), (named_ucfg('2DPGA'), 3), (named_ucfg('3DPGA'), 4), (ucfg(sig=[0, 1, 1, 1]), 4)) + \
+            (() if q else ((ucfg(sig=[1, -1]), 2), (ucfg(sig=[1, 1, 1, -1]), 4), (ucfg(sig=[0, 1, 1, 1, 1, 1]), 6))):
+        pats = lambda t, d=d: [[list(P.random_key_tuple(rng, d, 4, 1)) for _ in range(2 if PR.ops_in(t) & {'rp', 'op'} else 1)] for _ in range(2 if q else 5)] + \
+            [[[b_ for b_ in range(2 ** d) if bin(b_).count('1') == g][:4] for _ in range(2 if PR.ops_in(t) & {'rp', 'op'} else 1)] for g in (1, d - 1)]     # noqa: E731
+        plan.append((u, 1, one, pats))
+        plan.append((u, 2, two, pats))
+    run_registered(ctx, plan, 'regdual', 'registered_duality_programs')
     return ctx.finish(
         rule='case = (configuration incl. custom bases whose pseudoscalar is oriented differently, operator in {hodge, unhodge, polarity, '
              'unpolarity, dual, undual, rp, round trips, E^hodge(E)}, ordered key tuples) on formal indeterminates; all signatures d<=2 '
